@@ -427,6 +427,8 @@ def r4d_points_cast_in_place(repo: Repo, rep):
 
 
 def run(repo: Repo, rep):
+    from .c08 import r4_purity_and_label  # conditions share one model: its forward must store nothing decided from one condition's points
+    r4_purity_and_label(repo, rep)
     r6_sampler_builders_are_pure(repo, rep)
     from .c15 import r1b_no_cache  # a sampler shared by several conditions serves each evaluation a fresh draw for ITS parameters: a stored draw is handed to the next condition
     r1b_no_cache(repo, rep)
